@@ -31,7 +31,10 @@ ReplayRecord ==
       w |-> w2, pubrows |-> pubrows, privrows |-> privrows, nslots |-> nslots,
       rewrite |-> SetToSeq(rewrite),
       den0 |-> DenSeq(graph, Env0),
-      m02 |-> ModelC02, m03 |-> ModelC03, m09 |-> BusWellFormed ]
+      m02 |-> ModelC02, m03 |-> ModelC03, m09 |-> BusWellFormed,
+      m19 |-> (\A env \in Envs :
+                 /\ (NPUB > 0 => ~RunPartial(ops, pubrows, privrows, nslots, rewrite, env, FALSE, TRUE).ok)
+                 /\ (NPRIV > 0 => ~RunPartial(ops, pubrows, privrows, nslots, rewrite, env, TRUE, FALSE).ok)) ]
 
 EmitReplay == stage = "done" => PrintT(<<"REPLAY", ToJson(ReplayRecord)>>)
 
